@@ -23,6 +23,8 @@ class Raises:
 
 
 class AbstractCache:
+    item_max = 1024 * 1024  # larger values are refused by the server (and a refused set drops the old item)
+
     def __init__(self, now=0.0):
         self.now = now
         self.m = {}  # key -> [value, flags, dies_at or None, version]
@@ -72,13 +74,23 @@ class AbstractCache:
     # -- the client's vocabulary ----------------------------------------------
     def set(self, key, value, expire=0, noreply=False, flags=0):
         self._tick()
+        if len(value) > self.item_max:
+            self.m.pop(key, None)
+            return True if noreply else Raises("MemcacheServerError")
         self._put(key, value, flags, expire)
         return True
 
     def set_many(self, values, expire=0, noreply=False, flags=0):
         self._tick()
-        for k, v in values.items():
-            self._put(k, v, flags, expire)
+        refused = False
+        for k, v in values.items():  # the server executes every command of the batch
+            if len(v) > self.item_max:
+                self.m.pop(k, None)
+                refused = True
+            else:
+                self._put(k, v, flags, expire)
+        if refused and not noreply:
+            return Raises("MemcacheServerError")
         return []
 
     def add(self, key, value, expire=0, noreply=False, flags=0):
